@@ -234,6 +234,26 @@ Theorem C13_reject_marker : forall toks, ~ has_marker toks ->
 Proof. exact no_marker_rejected. Qed.
 Print Assumptions C13_reject_marker.
 
+(* an out-of-range CRC / firmware id (OverflowError in exec_bf2instrs) is turned into
+   Bf3FileFormatError by emit_bf3comp like ValueError, IndexError and KeyError; TypeError is not *)
+Theorem C13_emit_catches : caught_emit EOverflow = true /\ caught_emit EValue = true /\
+  caught_emit EIndex = true /\ caught_emit EKey = true /\ caught_emit EType = false.
+Proof. exact emit_catches. Qed.
+Print Assumptions C13_emit_catches.
+
+(* a loader component without interface tag (no SELECT_IF in force) is a format error *)
+Theorem C13_reject_loader_without_interface : forall c tyb,
+  dget N.eqb BF3TAG_TYPE (c_desc c) = Some tyb -> from_be tyb = BF3TYPE_LOADER ->
+  dget N.eqb BF3TAG_INTF (c_desc c) = None -> annotation c = Err EBf3.
+Proof. exact loader_without_interface. Qed.
+Print Assumptions C13_reject_loader_without_interface.
+
+(* a header line "##load:<value>" (value without ':') is refused by the parser *)
+Theorem C13_reject_load_header : forall value,
+  parse_meta_line (s_load ++ [58] ++ value) = Err EValue \/ exists c, In c value /\ c = 58.
+Proof. exact load_header_rejected. Qed.
+Print Assumptions C13_reject_load_header.
+
 (* ---- summary comment and filter expression ------------------------------------------- *)
 
 (* the comment names the kind and appends the printed filter expression *)
